@@ -58,6 +58,16 @@ func TestC06(t *testing.T) {
 		if mode > 2 {
 			faults = GenFaults(rt, signed, FaultOpts{Content: true, Delete: true, KindSwap: true, Links: true, Special: true, MaxFaults: 6})
 		}
+		if mode > 2 && rapid.IntRange(0, 11).Draw(rt, "linkedtolonger") == 0 {
+			// a file that ends on a block boundary is replaced by a hard link to a longer file that
+			// begins with the same bytes (and is looked at first): only its length is wrong
+			pb := Bytes(rapid.Uint64().Draw(rt, "hqseed"), rapid.IntRange(1, 3).Draw(rt, "hqblocks")*BlockSize)
+			signed["hq/a-long.bin"] = &Entry{Kind: KFile, Data: append(append([]byte{}, pb...), Bytes(5, rapid.SampledFrom([]int{1, 1000, BlockSize, 300 * KiB}).Draw(rt, "hqextra"))...)}
+			signed["hq/b-short.bin"] = &Entry{Kind: KFile, Data: pb}
+			signed.Normalize()
+			faults = append([]Fault{{Kind: "hardlink", Path: "hq/b-short.bin", Dest: "hq/a-long.bin"}}, faults...)
+			Ev.Probe("file_replaced_by_hard_link_to_a_longer_file_with_the_same_beginning")
+		}
 		twinDeep := false
 		if mode > 2 && rapid.IntRange(0, 7).Draw(rt, "twins") == 0 {
 			// twin subtrees, one of them replaced by a symlink to the other (or to the parent): its
@@ -146,7 +156,7 @@ func TestC06(t *testing.T) {
 		zipPath := filepath.Join(zipDir, "build.zip")
 		zipOf(pristine, zipPath)
 		// (the directory's own name is nobody's business: percent signs, spaces, colons)
-		target := filepath.Join(dir, rapid.SampledFrom([]string{"target", "target", "target", "100% Orange Juice", "50%", "1:x y", "a#b?c"}).Draw(rt, "targetname"))
+		target := filepath.Join(dir, rapid.SampledFrom([]string{"target", "target", "target", "100% Orange Juice", "50%", "1:x y", "a#b?c", "Game-1.2.zip", "UPPER.ZIP"}).Draw(rt, "targetname"))
 		// ... nor is the way its path is spelled (the string is handed over as it is)
 		switch rapid.IntRange(0, 6).Draw(rt, "targetspelling") {
 		case 0:
